@@ -498,20 +498,20 @@ impl LiveActor {
         reason: SyncReason,
         result: Result<SyncFinished, ConnectError>,
     ) {
-        match result {
-            Err(ConnectError::RemoteAbort(AbortReason::AlreadySyncing)) => {
-                debug!(?reason, "remote abort, already syncing");
-            }
-            res => {
-                self.on_sync_finished(
-                    namespace,
-                    peer,
-                    Origin::Connect(reason),
-                    res.map_err(Into::into),
-                )
-                .await
-            }
+        if let Err(ConnectError::RemoteAbort(AbortReason::AlreadySyncing)) = &result {
+            // The peer is busy, usually with its own concurrent request to us. If we accepted
+            // that request meanwhile, the state now belongs to the accepted session and
+            // `finish` ignores this completion. Otherwise our dial is over and the slot must be
+            // freed, or we would stay marked as connecting forever.
+            debug!(?reason, "remote abort, already syncing");
         }
+        self.on_sync_finished(
+            namespace,
+            peer,
+            Origin::Connect(reason),
+            result.map_err(Into::into),
+        )
+        .await
     }
 
     #[instrument("accept", skip_all, fields(peer = %fmt_accept_peer(&res), namespace = %fmt_accept_namespace(&res)))]
